@@ -518,7 +518,10 @@ def monitor(root, out):
             if v != (E.NA, None):
                 fails.append("C17-initial: %s has the initial value %s without a declared default" % (p, E.show_val(v)))
         else:
+            # exact reading for "must be set", the broker's tolerant float comparison for "must not be set"
             ok = V.in_domain(e["dtype"], e["min"], e["max"], e["allowed"], e["default"], True)
+            if ok is False and V.in_domain(e["dtype"], e["min"], e["max"], e["allowed"], e["default"], False) is not False:
+                ok = None
             if ok is True and v != e["default"]:
                 fails.append("C17-initial: attribute %s starts as %s, declared default %s" % (
                     p, E.show_val(v), E.show_val(e["default"])))
